@@ -43,6 +43,8 @@ namespace AioslskVerif.Wire
 
 @[simp] theorem except_bind_ok {ε α β : Type} (a : α) (f : α → Except ε β) :
     ((Except.ok a : Except ε α) >>= f) = f a := rfl
+@[simp] theorem except_bind_error {ε α β : Type} (e : ε) (f : α → Except ε β) :
+    ((Except.error e : Except ε α) >>= f) = Except.error e := rfl
 @[simp] theorem except_pure {ε α : Type} (a : α) : (pure a : Except ε α) = .ok a := rfl
 
 /-! ### the prefix-parser round trip, by mutual structural recursion -/
